@@ -91,6 +91,9 @@ func (s *Syncer) syncLoop(ctx context.Context, env *lmdb.Env, r *receiver.Receiv
 			break
 		}
 		s.l.WithError(err).Info("Waiting for initial receiver listing")
+		if utils.IsCanceled(ctx) {
+			return context.Canceled
+		}
 		if handled, err := verifhook.Sleep(ctx, time.Second); handled {
 			if err != nil {
 				return err
